@@ -26,7 +26,7 @@ import (
 func init() {
 	Register(&Spec{
 		ID: "C11", Level: "fault_enumeration",
-		Rule: "a recorded history of the all-modules director (every workload on one chain, journaled as genesis + block headers + tx bytes) is re-executed by replicas in separate processes: later in wall-clock time (and under other time zones and locales), on an on-disk DB with the application closed and reopened at block boundaries (every k-th block quick, every block thorough, once across process exit), with other GOMAXPROCS/GOGC; per block the app hash, the ordered KV digest of every irismod/bank/auth store and every tx result (code, codespace, data, gas; since round 16 also the text of its log, unless it carries the stack trace of a recovered abort) are compared, and the exported genesis (8 repeated exports per replica) per module section. Host-clock straddle cases place the chain's timestamps at now-D+20s for each duration D found next to a host-clock read in /repo (scan) and a fixed list, run the generator immediately and a replica after the threshold has passed. Thorough adds a -race build running block production concurrently with queries/simulations. evaluations = comparisons made; non-trivial = a block or export compared between two executions; distinct = distinct (replica kind, restart point, D, message types present)",
+		Rule: "a recorded history of the all-modules director (every workload on one chain, journaled as genesis + block headers + tx bytes) is re-executed by replicas in separate processes: later in wall-clock time (and under other time zones and locales), on an on-disk DB with the application closed and reopened at block boundaries (every k-th block quick, every block thorough, once across process exit), with other GOMAXPROCS/GOGC; per block the app hash, the ordered KV digest of every irismod/bank/auth store and every tx result (code, codespace, data, gas; since round 16 also the text of its log, unless it carries the stack trace of a recovered abort) are compared, and the exported genesis (8 repeated exports per replica) per module section. Host-clock straddle cases place the chain's timestamps at now-D+20s for each duration D found next to a host-clock read in /repo (scan) and a fixed list, run the generator immediately and a replica after the threshold has passed. Thorough adds a -race build running block production concurrently with queries/simulations. evaluations = comparisons made; non-trivial = a block or export compared between two executions; distinct = distinct (replica kind, restart point, D, message types present); since rounds 15-19: a farm creation wrong in two ways at once every 7 blocks (which refusal is given must not depend on chance)",
 		Assume: []string{"same machine, architecture and Go version for all replicas", "a race report counts only if the racing access itself lies in mods.irisnet.org code (the SDK store layer races under Query||Commit, which a node never runs concurrently)", "differences confined to event order are recorded as observations, not violations"},
 		Cases:  func(t string) int { return tierN(t, 5, 17) },
 		Run:    runDeterminism,
